@@ -937,6 +937,66 @@ def check_found_again(F, R, ctor, cmp_, adt, inst):
         R.ok(inst, cmp_, f"{len(crow)} constructor rows x {len(prow)} comparator rows, {n_pairs} compatible pairs, none certainly unequal")
 
 
+def check_tells_apart(F, R, cmp_, adt, key_adt, need, inst):
+    """The look-up comparator must not answer `true` for another key: every row of its table that can answer true has
+    compared (equality atom learned true, or returned as the answer) something taken from each key field in `need` with
+    something taken from the entry.  `need` names the fields that identify a key (gherkin feature: `path` *and* `name`:
+    features of different files may share the name, path-less features share the (missing) path)."""
+    from . import deep as D
+    from .termtypes import _field_map
+    fm = _field_map(F)
+    rows = D.Deep(F, cmp_, max_paths=400, opaque=r"trim_path$|to_kebab_case$").run()
+    if not rows or any(p.cut for p in rows):
+        raise Unverifiable(f"{inst}: empty path table or a loop")
+
+    def key_fields(t):
+        out = set()
+        for x in D.subterms(t):
+            if isinstance(x, tuple) and x and x[0] == "field" and x[1] in (("deref", ("arg", 2)), ("arg", 2)) and isinstance(x[2], int):
+                out.add(fm.get((key_adt, x[2]), (f"#{x[2]}",))[0])
+        return out
+
+    def entry_side(t):
+        return any(isinstance(x, tuple) and x and x[0] == "field" and x[1] in (("deref", ("arg", 1)), ("arg", 1)) for x in D.subterms(t))
+
+    def is_eq(a):
+        return (a[0] == "call" and re.search(r"::eq$", a[1]) and len(a[2]) == 2) or (a[0] == "bin" and a[1] == "Eq")
+
+    n = 0
+    for p in rows:
+        if p.ret == ("const", False):
+            continue
+        n += 1
+        atoms = [a for a, o in p.conds if is_eq(a) and o is True]
+        if isinstance(p.ret, tuple) and is_eq(p.ret):
+            atoms.append(p.ret)
+        elif p.ret != ("const", True):
+            raise Unverifiable(f"{inst}: the comparator answers {D.fmt(cmp_, p.ret)[:60]}")
+        compared, infeasible = set(), False
+        for a, o in p.conds:
+            if a[0] == "discr":
+                compared |= key_fields(a[1])   # the state (Some / None) of an optional key field was asked
+        for a in atoms:
+            x, y = (a[2][0], a[2][1]) if a[0] == "call" else (a[2], a[3])
+            nx, ny = _norm(x), _norm(y)
+            isv = lambda z: isinstance(z, tuple) and len(z) == 4 and z[0] == "variant"
+            if isv(nx) and isv(ny) and nx[1] == ny[1] and nx[2] != ny[2] and a is not p.ret:
+                infeasible = True   # `Some(..) == None` learned true: not a row of any execution
+            for u, v in ((x, y), (y, x)):
+                if key_fields(u) and not key_fields(v):
+                    compared |= key_fields(u)
+        if infeasible:
+            n -= 1
+            continue
+        missing = [f for f in need if f not in compared]
+        if missing:
+            conds = " ∧ ".join(f"{D.fmt(cmp_, a)[:60]}={o}" for a, o in p.conds) or "always"
+            R.violation(inst, cmp_, f"`{cmp_.short[-60:]}` can answer true without having compared the key's {missing} [{conds}]: the entry of one "
+                        f"{key_adt.rsplit('::', 1)[-1].lower()} is taken for that of another one differing only there, whose events are then recorded under the wrong entry")
+            return
+    R.check(n >= 1, inst, cmp_, f"{n} row(s) that can answer true, each has compared the key's {list(need)}", "the comparator never answers true")
+
+
 def r10(F, R):
     """Cucumber JSON: the entry created for a feature is found again — `json::Feature::new(f) == f` can never be false."""
     JS = "writer::json::"
@@ -953,6 +1013,12 @@ def r10(F, R):
         if len(ctors) != 1:
             raise Unverifiable(f"constructor of {adt} from {key_ty}: {len(ctors)}")
         check_found_again(F, R, ctors[0], cmp_, adt, f"json/entry-found-again/{adt.rsplit('::', 1)[-1]}")
+        from .termtypes import adt_path
+        ka = adt_path(key_ty)
+        need = {"gherkin::Feature": ("path", "name")}.get(ka)
+        if need is None:
+            raise Unverifiable(f"identifying fields of the look-up key {ka} are not tabled")
+        check_tells_apart(F, R, cmp_, adt, ka, need, f"json/entry-tells-apart/{adt.rsplit('::', 1)[-1]}")
     R.floor(1)
 
 
